@@ -42,17 +42,21 @@ FromBits(f, n) == [i \in 1..n |->
 (***************************************************************************)
 (* Addition / subtraction with carry / borrow                              *)
 (***************************************************************************)
+RECURSIVE AddSeq(_, _, _, _)            \* <<sum digits..., carry out>>
+AddSeq(a, b, c, i) == IF i > Len(a) THEN <<c>>
+                      ELSE LET t == a[i] + b[i] + c IN <<t % Base>> \o AddSeq(a, b, t \div Base, i + 1)
 AddC(a, b, cin) ==
-  LET n == Len(a)
-      c[i \in 0..n] == IF i = 0 THEN cin ELSE (a[i] + b[i] + c[i-1]) \div Base
-  IN [r |-> [i \in 1..n |-> (a[i] + b[i] + c[i-1]) % Base], c |-> c[n],
+  LET n == Len(a) x == AddSeq(a, b, cin, 1)
+  IN [r |-> SubSeq(x, 1, n), c |-> x[n + 1],
       \* carry out of bit 3 (auxiliary carry); only meaningful for DBits >= 4
       ac |-> IF DBits >= 4 THEN ((a[1] % 16) + (b[1] % 16) + cin) \div 16 ELSE 0]
 
+RECURSIVE SubSeq2(_, _, _, _)           \* <<difference digits..., borrow out>>
+SubSeq2(a, b, bo, i) == IF i > Len(a) THEN <<bo>>
+                        ELSE LET t == a[i] + Base - b[i] - bo IN <<t % Base>> \o SubSeq2(a, b, 1 - (t \div Base), i + 1)
 SubB(a, b, bin) ==
-  LET n == Len(a)
-      bo[i \in 0..n] == IF i = 0 THEN bin ELSE IF a[i] < b[i] + bo[i-1] THEN 1 ELSE 0
-  IN [r |-> [i \in 1..n |-> (a[i] + Base - b[i] - bo[i-1]) % Base], c |-> bo[n],
+  LET n == Len(a) x == SubSeq2(a, b, bin, 1)
+  IN [r |-> SubSeq(x, 1, n), c |-> x[n + 1],
       ac |-> IF DBits >= 4 THEN (IF (a[1] % 16) < (b[1] % 16) + bin THEN 1 ELSE 0) ELSE 0]
 
 Add(a, b) == AddC(a, b, 0).r
@@ -86,8 +90,13 @@ Parity(a) == LET RECURSIVE Cnt(_)
 (***************************************************************************)
 (* Shifts (count in bits, 0 <= c; result has Len(a) digits)                *)
 (***************************************************************************)
-ShiftL(a, c) == FromBits([j \in 0..(Width(a) - 1) |-> IF j >= c THEN Bit(a, j - c) ELSE 0], Len(a))
-ShiftR(a, c) == FromBits([j \in 0..(Width(a) - 1) |-> IF j + c < Width(a) THEN Bit(a, j + c) ELSE 0], Len(a))
+\* digit-wise: c = q digits + r bits
+ShiftL(a, c) ==
+  LET n == Len(a) q == c \div DBits r == c % DBits p == Pow2(r) IN
+  [i \in 1..n |-> ((IF i - q >= 1 THEN a[i - q] * p ELSE 0) % Base) + ((IF i - q - 1 >= 1 THEN a[i - q - 1] * p ELSE 0) \div Base)]
+ShiftR(a, c) ==
+  LET n == Len(a) q == c \div DBits r == c % DBits p == Pow2(r) m == Pow2(DBits - r) IN
+  [i \in 1..n |-> ((IF i + q <= n THEN a[i + q] ELSE 0) \div p) + (((IF i + q + 1 <= n THEN a[i + q + 1] ELSE 0) * m) % Base)]
 
 (***************************************************************************)
 (* Widening multiplication: Len(a) = Len(b) = n  ->  2n digits             *)
@@ -95,12 +104,14 @@ ShiftR(a, c) == FromBits([j \in 0..(Width(a) - 1) |-> IF j + c < Width(a) THEN B
 UMul(a, b) ==
   LET n == Len(a)
       \* column k (1..2n) = sum of a[i]*b[k+1-i]
-      Col(k) == LET RECURSIVE S(_)
-                    S(i) == IF i > n THEN 0
-                            ELSE (IF k + 1 - i >= 1 /\ k + 1 - i <= n THEN a[i] * b[k + 1 - i] ELSE 0) + S(i + 1)
-                IN S(1)
-      cy[k \in 0..(2*n)] == IF k = 0 THEN 0 ELSE (Col(k) + cy[k-1]) \div Base
-  IN [k \in 1..(2*n) |-> (Col(k) + cy[k-1]) % Base]
+      Col(k) == LET lo == IF k - n + 1 > 1 THEN k - n + 1 ELSE 1
+                    hi == IF k < n THEN k ELSE n
+                    RECURSIVE S(_)
+                    S(i) == IF i > hi THEN 0 ELSE a[i] * b[k + 1 - i] + S(i + 1)
+                IN S(lo)
+      RECURSIVE Go(_, _)              \* digits from column k on, with incoming carry
+      Go(k, cy) == IF k > 2 * n THEN <<>> ELSE LET t == Col(k) + cy IN <<t % Base>> \o Go(k + 1, t \div Base)
+  IN Go(1, 0)
 
 \* signed widening multiplication via sign extension to 2n digits, low 2n digits of the product
 SMul(a, b) ==
@@ -118,13 +129,10 @@ UDivMod(num, d) ==
   LET m  == Len(num)
       n  == Len(d)
       dx == ZExt(d, n + 1)
-      \* st[j] = state after processing the top j bits: [r (n+1 digits), q (bit function as set of bit indexes)]
       RECURSIVE Go(_, _, _)
       Go(j, r, q) ==
         IF j < 0 THEN [q |-> q, r |-> r]
-        ELSE LET r2 == \* (r << 1) | bit j of num
-                       LET sh == ShiftL(r, 1)
-                       IN [sh EXCEPT ![1] = sh[1] + Bit(num, j)]
+        ELSE LET r2 == AddC(r, r, Bit(num, j)).r            \* (r << 1) | bit j of num
              IN IF ULe(dx, r2) THEN Go(j - 1, Sub(r2, dx), q \cup {j})
                                ELSE Go(j - 1, r2, q)
       res == Go(Width(num) - 1, Zeros(n + 1), {})
@@ -132,5 +140,25 @@ UDivMod(num, d) ==
       r |-> Trunc(res.r, n)]
 
 Abs(a) == IF Msb(a) = 1 THEN Neg(a) ELSE a
+
+(***************************************************************************)
+(* Division as a relation (what DIV / IDIV need): does the quotient of the *)
+(* 2n-digit dividend num by the n-digit divisor d (d # 0) fit in n digits, *)
+(* and is (q, r) the quotient and remainder?  No division is computed.     *)
+(***************************************************************************)
+UDivFits(num, d) == ULt(Upper(num, Len(d)), d)
+UDivRel(num, d, q, r) == Add(UMul(q, d), ZExt(r, 2 * Len(d))) = num /\ ULt(r, d)
+
+\* signed (truncating) division; magnitudes as unsigned numbers
+SDivFits(num, d) ==
+  LET n == Len(d)
+      nm == Abs(num)  dm == ZExt(Abs(d), 2 * n)
+      lim == ShiftL(dm, n * DBits - 1)                          \* |d| * 2^(w-1)
+  IN IF Msb(num) = Msb(d) THEN ULt(nm, lim)                     \* quotient >= 0: |num| div |d| <= 2^(w-1) - 1
+     ELSE ULt(nm, Add(lim, dm))                                 \* quotient <= 0: |num| div |d| <= 2^(w-1)
+SDivRel(num, d, q, r) ==
+  /\ Add(SMul(q, d), SExt(r, 2 * Len(d))) = num
+  /\ ULt(Abs(r), Abs(d))
+  /\ (IsZero(r) \/ Msb(r) = Msb(num))
 
 =============================================================================
